@@ -267,7 +267,19 @@ class PyDeg(Analysis):
         degs = {}
         for p, node in b.items():
             degs[p] = self.E.ev(node, s)
-        # defaults keep their seed degree
+        # an omitted parameter takes its default: a non-zero numeric constant has degree 0, so leaving out a parameter whose
+        # seed degree is not 0 replaces a scaling quantity by a fixed number inside the callee (defaults of 0/None/bools are
+        # neutral; public entry points called by users are not call sites of this analysis)
+        a = callee.args
+        pos = a.posonlyargs + a.args
+        defaults = dict(zip([x.arg for x in pos[len(pos) - len(a.defaults):]], a.defaults))
+        defaults.update({k.arg: d for k, d in zip(a.kwonlyargs, a.kw_defaults) if d is not None})
+        for pn, dnode in defaults.items():
+            if pn in b or any(k.arg is None for k in e.keywords) or any(isinstance(x, ast.Starred) for x in e.args):
+                continue
+            sd = self.ctx.seed(pn)
+            if sd not in (None, 0) and isinstance(dnode, ast.Constant) and isinstance(dnode.value, (int, float)) and not isinstance(dnode.value, bool) and dnode.value != 0:
+                self.finding(e, 'call `%s` omits `%s`: the constant default %r stands in for a quantity of degree %+d' % (self.E.txt(e)[:60], pn, dnode.value, sd))
         return self.ctx.analyse(callee._module, callee, degs)
 
     # flow hooks ---------------------------------------------------------------------------------------
